@@ -63,6 +63,10 @@ CLAIMED["C07"] = ("Per (rate, mode, length, preamble count) one symbolic run ove
 CLAIMED["C15"] = ("Documents generated from the tables of the current source: every LRRP document id x element tokens with symbolic canonical values (all values of each token type), "
                   "ordered pairs of token types, buffers of two documents, inline constant tables, documents assembled through get_token: parsing terminates, token ids / values / "
                   "attributes / tables as written, every document re-serialises to the identical bytes, announced lengths account for the buffer. Inherited tables: known finding.", "6/C15")
+CLAIMED["C08"] = ("All histories of depth 2 over a 10-class burst alphabet and of depth 3 over a 6-class core alphabet (library-serialised bursts; data-block octets and group address "
+                  "symbolic; blocks-to-follow / preamble counts from small pools), a monitor over the observer log: processing never fails, 'ended' only after an open 'started' "
+                  "of the same kind with the right header type, idle + fresh stream id afterwards, A-F labelling, rx sequence numbers mod 256 with restart, raising observers, "
+                  "two timeslots. The inductive one-step harness of the design was not built; histories beyond the depth are not claimed.", "6/C08")
 NOT_YET = {}
 props = [json.loads(l) for l in open(os.path.join(V, "properties.jsonl"))]
 checks = []
